@@ -320,7 +320,9 @@ Definition prog_of (v : variant) (s : shape) : prog :=
       relt_body k ++ relt_tail k ++
       [ (Tens k, r Tmp0); (TensIt k, c CFalse) ] ++
       (if own_ham k then [ (TensHam k, r Tmp2) ] else [])
-  | BuildP p => [ (PConf p, ap KMkConf [c COne; r (PRest p)]); (PIterm p, c CFalse); (PExpo p, c CNone);
+  (* constructor (Nref = 1) followed, when the propagator is configured with its own refinement, by
+     setDtRefinement(k): ArgNref carries k (1 = none) *)
+  | BuildP p => [ (PConf p, ap KMkConf [r ArgNref; r (PRest p)]); (PIterm p, c CFalse); (PExpo p, c CNone);
                   (Res, c CNone) ]
   | BuildSv | BuildPop => [ (Res, c CNone) ]
   | BuildKK => rate_prog ++ [ (KK, r Res) ]
